@@ -212,10 +212,15 @@ func propC03(r *kernel.Run) {
 				r.Count("cfg.timestamps_absent_or_denormal", 1)
 			}
 			if fieldCase == "bad-key-type" {
-				if tp.Draw(2) == 0 {
+				switch tp.Draw(4) {
+				case 0:
 					info.CertificatePublicKeyType = types.KEYTYPE_X25519
-				} else {
+				case 1:
 					info.EncryptionPublicKeyType = types.KEYTYPE_ED25519
+				case 2: // the type left out altogether
+					info.EncryptionPublicKeyType = types.KEYTYPE_UNSPECIFIED
+				default:
+					info.CertificatePublicKeyType = types.KEYTYPE_UNSPECIFIED
 				}
 				b, _ := proto.Marshal(info)
 				req.Bundle = b
